@@ -41,6 +41,9 @@ CHECKS = {
  'C14': dict(tech=A + '; one inductive step per operation from an arbitrary valid collection state', cat='model_checking',
              text='Crystal_ArrayInit/AddCrystal (user and built-in collection)/GetCrystal/GetCrystalsList/MakeCopy/Free/ArrayFree of the real crystal_diffraction.c executed by CBMC from every array shape with capacity <= 2 and symbolic contents: invariant (sorted, counts, capacity) preserved on the object the caller holds, abstract content = old + new on success and unchanged on rejection, growth when full, built-in capacity enforced, independent copies, everything released by ArrayFree (memory-leak check)',
              note='capacity <= 2 (12 after growth), names <= 2 bytes, <= 1 atom; typed bsearch/qsort/memcpy models with the real comparators; libm stand-ins; Crystal_ReadFile (file I/O) not encoded'),
+ 'C07': dict(tech=A + ' (symbol table only in this round)', cat='model_checking',
+             text='PARTIAL: element symbol <-> atomic number bijection over the real element table (AtomicNumberToSymbol for every 32-bit Z, SymbolToAtomicNumber for all 107 symbols, NULL and non-symbols). The string-to-composition part (CompoundParserSimple) has no solver verdict: CBMC produced 33 M clauses for the one-character formula even with every libc piece modelled, see DESIGN.md C07',
+             note='the parser fixes (locale restore, unweighable elements, failure-path leaks) were confirmed natively (valgrind) and are recorded in known_findings.json; they are NOT yet guarded by a solver check'),
 }
 NA = {
  'C19': 'no symbolic engine for Java/JVM bytecode is installed (no JBMC/SPF); a hand-written Java->SMT translator for 5900 lines using ByteBuffer I/O, exceptions and collections is out of reach; see DESIGN.md C19',
